@@ -47,6 +47,7 @@ type caseT struct {
 	Err  *errCase     `json:",omitempty"`
 	MPar *methodPar   `json:",omitempty"`
 	AOv  *authOverlap `json:",omitempty"`
+	AStk *authStack   `json:",omitempty"`
 }
 
 // errCase: the default rejection of bodylimit (Which = "B": a declared size over Limit) or of basicauth (Which = "A":
@@ -177,7 +178,9 @@ type bodyCase struct {
 	// "copy" = io.Copy(plain writer, c.Request.Body) — the body itself is handed to io.Copy, so that an io.WriterTo it
 	// may offer is used (32 KiB buffer otherwise: the case line says Dflt = 32768, no Caps); "readall" = io.ReadAll
 	// through a reader that records the buffer size of every call (those sizes become the Caps of the case line).
-	Style  string `json:",omitempty"`
+	Style string `json:",omitempty"`
+	// Method: "" = POST; a body is a body whatever the method says (GET, OPTIONS, DELETE … with a chunked body)
+	Method string `json:",omitempty"`
 	shared *bodyShared
 }
 
@@ -331,6 +334,9 @@ func genBody(r *hx.Rand) *bodyCase {
 		}
 	}
 	c.Dflt = hx.Pick(r, []int{1, 2, 3, 7, 512, lim, lim + 1})
+	if r.Chance(1, 5) {
+		c.Method = hx.Pick(r, []string{"GET", "OPTIONS", "DELETE", "PUT", "PATCH", "HEAD", "GET"})
+	}
 	switch r.Intn(7) {
 	case 0:
 		c.Style = "copy"
@@ -530,6 +536,14 @@ func (c *bodyCase) emit(id string, st *hx.Stats) string {
 			c.shared.handler = chain[len(chain)-1]
 		} else {
 			r.POST("/up", chain...)
+			if c.Method != "" {
+				r.GET("/up", chain...)
+				r.PUT("/up", chain...)
+				r.PATCH("/up", chain...)
+				r.DELETE("/up", chain...)
+				r.OPTIONS("/up", chain...)
+				r.HEAD("/up", chain...)
+			}
 		}
 		if c.Real {
 			srv := httptest.NewServer(r)
@@ -556,6 +570,9 @@ func (c *bodyCase) emit(id string, st *hx.Stats) string {
 			return
 		}
 		req := httptest.NewRequest(http.MethodPost, "/up", nil)
+		if c.Method != "" && c.shared == nil {
+			req.Method = c.Method
+		}
 		req.Body = &under{rem: append([]byte(nil), c.Body...), script: append([]stepT(nil), c.Script...), eofWithLast: c.EofWithLast}
 		req.ContentLength = -1
 		if c.CL != nil {
@@ -582,6 +599,9 @@ func (c *bodyCase) emit(id string, st *hx.Stats) string {
 	if st != nil {
 		if c.Style != "" {
 			st.Count("B.handler_" + c.Style)
+		}
+		if c.Method != "" {
+			st.Count("B.method_other_than_POST")
 		}
 		in += " " + c.Style + fmt.Sprint(dfltOut, capsOut)
 		n, lim := len(c.Body), int(c.Limit)
@@ -1033,6 +1053,10 @@ type corsCase struct {
 	Opts   []corsOpt
 	Origin *B // nil = no header
 	Method string
+	// OwnHost: the request names the Origin's own host as its host (Host header and absolute-form target), HTTP10: as an
+	// HTTP/1.0 request — being "same origin" by the request's own account is not a reason to emit the header
+	OwnHost bool `json:",omitempty"`
+	HTTP10  bool `json:",omitempty"`
 }
 
 var originPool = []string{
@@ -1040,6 +1064,7 @@ var originPool = []string{
 	"https://app.example.com", "https://evil.example.org", "http://app.example.com", "https://app.example.com:8443",
 	"*", "null", "https://APP.example.com", "https://app.example.com/", " https://app.example.com", "https://sub.app.example.com",
 	"https://xn--e1afmkfd.example", "file://", "https://app.example.com.evil.org", "https://例え.example", "\x00",
+	"http://evil.test", "http://example.com", "http://evil.test:8080",
 }
 
 // the user-supplied origin function used whenever a case configures one
@@ -1086,6 +1111,11 @@ func genCors(r *hx.Rand) *corsCase {
 			o = B("")
 		}
 		c.Origin = &o
+	}
+	if r.Chance(1, 8) {
+		o := B(hx.Pick(r, []string{"http://evil.test", "http://example.com", "http://evil.test:8080", "http://app.example.com"}))
+		c.Origin = &o
+		c.OwnHost, c.HTTP10 = true, r.Chance(1, 2)
 	}
 	return c
 }
@@ -1182,6 +1212,16 @@ func (c *corsCase) emit(id string, st *hx.Stats) string {
 		req := httptest.NewRequest(c.Method, "/c", nil)
 		if c.Origin != nil {
 			req.Header["Origin"] = []string{origin}
+		}
+		if c.OwnHost {
+			// the request names the Origin's host as its own (Host header / absolute-form target, HTTP/1.0 or 1.1)
+			if u, err := url.Parse(origin); err == nil && u.Host != "" {
+				req.Host = u.Host
+				req.URL.Host, req.URL.Scheme = u.Host, u.Scheme
+				if c.HTTP10 {
+					req.Proto, req.ProtoMajor, req.ProtoMinor = "HTTP/1.0", 1, 0
+				}
+			}
 		}
 		r.ServeHTTP(rec, req)
 	})
@@ -1892,6 +1932,108 @@ func (q *authOverlap) emit(id string, st *hx.Stats) string {
 	return line(".v0", q.Pass, true, g) + "\n" + line(".v1", q.Wrong, false, b)
 }
 
+// authStack (kind S): two basicauth instances on one route with different user tables (router-wide, then route-level).
+// Each instance is judged on its own as an ordinary A line: the outer one by whether the chain went on behind it, the inner
+// one — reached only when the outer one accepted — by what the terminal handler saw. That an earlier instance has put a
+// user name into the request context is not an input of the model.
+type authStack struct {
+	Outer, Inner [][2]B
+	Auth         B
+}
+
+func authInput(id string, users [][2]B, realm, auth string) *hx.Line {
+	m := map[string]string{}
+	for _, up := range users {
+		m[string(up[0])] = string(up[1])
+	}
+	keys := make([]string, 0, len(m))
+	for k := range m {
+		keys = append(keys, k)
+	}
+	sort.Strings(keys)
+	l := hx.NewLine(id).Tok("A").Bool(false).Nat(len(keys))
+	for _, k := range keys {
+		l.Str(k).Str(m[k])
+	}
+	l.Str(realm).Str(auth)
+	if len(auth) >= 6 {
+		if d, err := base64.StdEncoding.DecodeString(auth[6:]); err == nil {
+			return l.Bool(true).Bytes(d).Bool(false)
+		}
+	}
+	return l.Bool(false).Bool(false)
+}
+
+func usersMap(users [][2]B) map[string]string {
+	m := map[string]string{}
+	for _, up := range users {
+		m[string(up[0])] = string(up[1])
+	}
+	return m
+}
+
+func (q *authStack) emit(id string, st *hx.Stats) string {
+	var reachedInner, ran bool
+	var userAtProbe, userAtHandler string
+	rec := httptest.NewRecorder()
+	r := router.MustNew()
+	r.Use(basicauth.New(basicauth.WithUsers(usersMap(q.Outer)), basicauth.WithRealm("outer")))
+	probe := func(c *router.Context) { reachedInner, userAtProbe = true, basicauth.Username(c); c.Next() }
+	inner := basicauth.New(basicauth.WithUsers(usersMap(q.Inner)), basicauth.WithRealm("inner"))
+	r.GET("/p", probe, inner, func(c *router.Context) { ran, userAtHandler = true, basicauth.Username(c) })
+	req := httptest.NewRequest(http.MethodGet, "/p", nil)
+	req.Header.Set("Authorization", string(q.Auth))
+	if guard(func() { r.ServeHTTP(rec, req) }) {
+		return ""
+	}
+	www := sent(rec).Values("WWW-Authenticate")
+	l1 := authInput(id+".s0", q.Outer, "outer", string(q.Auth)).Sep()
+	if reachedInner {
+		l1.Bool(true).Nat(200).Bool(false).Str(userAtProbe)
+	} else {
+		l1.Bool(false).Nat(rec.Code)
+		optStr(l1, www)
+		l1.Str("")
+	}
+	out := l1.String() + hx.Comment(caseT{Kind: "S", AStk: q})
+	if reachedInner {
+		l2 := authInput(id+".s1", q.Inner, "inner", string(q.Auth)).Sep()
+		if ran {
+			l2.Bool(true).Nat(200).Bool(false).Str(userAtHandler)
+		} else {
+			l2.Bool(false).Nat(rec.Code)
+			optStr(l2, www)
+			l2.Str("")
+		}
+		out += "\n" + l2.String() + hx.Comment(caseT{Kind: "S", AStk: q})
+	}
+	if st != nil {
+		b, _ := json.Marshal(q)
+		st.Case(string(b), true)
+		st.Count("A.two_stacked_instances")
+	}
+	return out
+}
+
+func genAuthStack(r *hx.Rand) *authStack {
+	pool := [][2]B{{B("admin"), B("secret")}, {B("alice"), B("wonder")}, {B("bob"), B("builder")}, {B("admin"), B("other")}, {B("root"), B("toor")}}
+	q := &authStack{}
+	for _, up := range pool {
+		if r.Chance(1, 2) {
+			q.Outer = append(q.Outer, up)
+		}
+		if r.Chance(1, 2) {
+			q.Inner = append(q.Inner, up)
+		}
+	}
+	if len(q.Outer) == 0 {
+		q.Outer = pool[:2]
+	}
+	who := hx.Pick(r, q.Outer)
+	q.Auth = B("Basic " + b64(string(who[0])+":"+string(who[1])))
+	return q
+}
+
 // emitStacked: two method-override instances mounted one after the other (c.Opts, then c.Stack) with a probe
 // between them. Two ordinary case lines: the first instance on the request as sent (what the probe saw), the
 // second instance on what it found (method = what the probe saw; the first instance's recorded original in
@@ -1960,6 +2102,9 @@ type slashCase struct {
 	// Extra request headers a client (or a proxy) may send: forwarded prefix / host / proto, rewrite headers, another
 	// Host — the Location depends on the request's own URL only, none of them is an input of the model
 	Extra [][2]string `json:",omitempty"`
+	// HTTP10: the request line says HTTP/1.0; Host: the Host header ("" = site.example)
+	HTTP10 bool   `json:",omitempty"`
+	Host   string `json:",omitempty"`
 }
 
 var slashExtraPool = [][2]string{{"X-Forwarded-Prefix", "/\\evil.example"}, {"X-Forwarded-Prefix", "//evil.example"}, {"X-Forwarded-Prefix", "/app"},
@@ -1976,6 +2121,10 @@ func genSlash(r *hx.Rand) *slashCase {
 		for range r.Range(1, 2) {
 			c.Extra = append(c.Extra, hx.Pick(r, slashExtraPool))
 		}
+	}
+	if r.Chance(1, 6) {
+		c.HTTP10 = r.Chance(2, 3)
+		c.Host = hx.Pick(r, []string{"evil.test", "evil.test:8080", "", "site.example", "a.b.evil.test"})
 	}
 	n := r.Range(0, 4)
 	var b strings.Builder
@@ -2040,7 +2189,14 @@ func (c *slashCase) request0() (*http.Request, string) {
 		req.URL = &url.URL{Path: string(c.Path), RawQuery: string(c.Query)}
 		return req, ""
 	}
-	req, err := http.ReadRequest(bufio.NewReader(strings.NewReader("GET " + string(c.Target) + " HTTP/1.1\r\nHost: site.example\r\n\r\n")))
+	proto, host := "HTTP/1.1", "site.example"
+	if c.HTTP10 {
+		proto = "HTTP/1.0"
+	}
+	if c.Host != "" {
+		host = c.Host
+	}
+	req, err := http.ReadRequest(bufio.NewReader(strings.NewReader("GET " + string(c.Target) + " " + proto + "\r\nHost: " + host + "\r\n\r\n")))
 	if err != nil {
 		return nil, "unparsable_target"
 	}
@@ -2163,6 +2319,11 @@ func emitCase(id string, k caseT, st *hx.Stats) string {
 			id = id[:i]
 		}
 		return k.AOv.emit(id, st)
+	case "S":
+		if i := strings.LastIndex(id, ".s"); i > 0 {
+			id = id[:i]
+		}
+		return k.AStk.emit(id, st)
 	}
 	return ""
 }
@@ -2182,6 +2343,9 @@ func fixedCases() []caseT {
 		{Kind: "T", Sl: &slashCase{Variant: "W", Policy: 0, Target: B("/\\evil.com/")}},
 		{Kind: "T", Sl: &slashCase{Variant: "W", Policy: 0, Target: B("/users/?page=2&sort=name")}},
 		{Kind: "T", Sl: &slashCase{Variant: "W", Policy: 0, Target: B("http://site.example//evil.com/")}},
+		// HTTP/1.0 with a Host header chosen by the client: still a path reference
+		{Kind: "T", Sl: &slashCase{Variant: "N", Policy: 0, Target: B("/users/"), HTTP10: true, Host: "evil.test"}},
+		{Kind: "T", Sl: &slashCase{Variant: "W", Policy: 1, Target: B("/users"), HTTP10: true, Host: "evil.test"}},
 		// a forwarded prefix supplied by the client is not part of the request's own path
 		{Kind: "T", Sl: &slashCase{Variant: "N", Policy: 0, Target: B("/users/"), Extra: [][2]string{{"X-Forwarded-Prefix", "/\\evil.example"}}}},
 		{Kind: "T", Sl: &slashCase{Variant: "W", Policy: 1, Target: B("/users"), Extra: [][2]string{{"X-Forwarded-Host", "evil.example"}, {"X-Forwarded-Proto", "https"}}}},
@@ -2212,6 +2376,9 @@ func fixedCases() []caseT {
 		{Kind: "E", Err: &errCase{Which: "B", Limit: 1048575}},
 		{Kind: "E", Err: &errCase{Which: "B", Limit: 1023}},
 		{Kind: "E", Err: &errCase{Which: "A", Realm: B("Restricted")}},
+		// a GET / OPTIONS request with a chunked body over the limit is limited like any other
+		{Kind: "B", Body: &bodyCase{Limit: 5, Body: B("1234567"), Method: "GET", Dflt: 8}},
+		{Kind: "B", Body: &bodyCase{Limit: 5, Body: B("1234567"), Method: "OPTIONS", Style: "readall", Dflt: 8}},
 		// the read that reaches the limit exactly hands out its bytes together with a transport error
 		{Kind: "B", Body: &bodyCase{Limit: 5, Body: B("1234567"), Script: []stepT{{K: "X", N: 5}}, Dflt: 8}},
 		{Kind: "B", Body: &bodyCase{Limit: 5, Body: B("12345"), Script: []stepT{d(4), {K: "X", N: 1}}, Dflt: 8}},
@@ -2271,7 +2438,9 @@ func main() {
 					k = caseT{Kind: "B", Body: genBody(r)}
 				}
 			case 1:
-				if i%500 == 1 {
+				if i%25 == 6 {
+					k = caseT{Kind: "S", AStk: genAuthStack(r)}
+				} else if i%500 == 1 {
 					k = caseT{Kind: "V", AOv: &authOverlap{User: hx.Pick(r, []string{"admin", "alice", "u"}), Pass: "secret", Wrong: hx.Pick(r, []string{"wrong", "", "secret ", "Secret"})}}
 				} else {
 					k = caseT{Kind: "A", Auth: genAuth(r)}
